@@ -140,7 +140,7 @@ fn judge_program(ctx: &mut WorkerCtx, p: &Plan, code: &[u8]) {
                                 (r, log)
                             };
                             // limited twin as a screen so that a backend that fails to stop stays cheap
-                            let budget = (4 * canon.steps + 64) as usize;
+                            let budget = diff::screen_budget(canon);
                             let (r0, log0) = run(Mode::Limited(budget));
                             let outcome = if r0.panicked.is_none() && log0 == expected && r0.finished != Some(false) {
                                 let (r, log) = run(Mode::Execute);
